@@ -6,6 +6,7 @@ import (
 	"io"
 	"os"
 	"sort"
+	"sync"
 	"time"
 
 	"github.com/hashicorp/raft"
@@ -73,6 +74,7 @@ type Runner struct {
 	isolated    map[string]*isoRec
 	rejoins     []*rejoinRec
 	atRest      bool
+	featMu      sync.Mutex
 }
 
 type RunOpts struct {
@@ -88,7 +90,11 @@ type faultSpec struct {
 	fired bool
 }
 
-func (r *Runner) feat(k string) { r.Feat[k]++ }
+func (r *Runner) feat(k string) {
+	r.featMu.Lock()
+	r.Feat[k]++
+	r.featMu.Unlock()
+}
 
 func (r *Runner) logf(format string, a ...any) {
 	if r.opts.Debug {
